@@ -52,6 +52,7 @@ import copy
 import numbers
 import warnings
 import networkx as nx
+import numpy as np
 
 import strawberryfields.circuitdrawer as sfcd
 from strawberryfields.compilers import Compiler, compiler_db
@@ -225,12 +226,27 @@ class Program:
         # compiled), they are still considered to be equal, even if their targets differ. Similarly,
         # two programs with different names can still be considered equal.
 
+        # a program is not equal to a longer program it is a prefix of
+        if len(self.circuit) != len(prog.circuit):
+            return False
+
+        def par_eq(p1, p2):
+            # array-valued parameters cannot be compared with a bare ``==``
+            if isinstance(p1, np.ndarray) or isinstance(p2, np.ndarray):
+                return np.shape(p1) == np.shape(p2) and bool(np.all(p1 == p2))
+            return p1 == p2
+
         for self_cmd, prog_cmd in zip(self.circuit, prog.circuit):
             names_eq = self_cmd.op.__class__ == prog_cmd.op.__class__
-            param_eq = all(p1 == p2 for p1, p2 in zip(self_cmd.op.p, prog_cmd.op.p))
-            modes_eq = all(m1 == m2 for m1, m2 in zip(self_cmd.reg, prog_cmd.reg))
+            dagger_eq = getattr(self_cmd.op, "dagger", False) == getattr(prog_cmd.op, "dagger", False)
+            param_eq = len(self_cmd.op.p) == len(prog_cmd.op.p) and all(
+                par_eq(p1, p2) for p1, p2 in zip(self_cmd.op.p, prog_cmd.op.p)
+            )
+            modes_eq = len(self_cmd.reg) == len(prog_cmd.reg) and all(
+                m1 == m2 for m1, m2 in zip(self_cmd.reg, prog_cmd.reg)
+            )
 
-            if not all((names_eq, param_eq, modes_eq)):
+            if not all((names_eq, dagger_eq, param_eq, modes_eq)):
                 return False
 
         return True
